@@ -3,7 +3,7 @@ Spec/YamlPos — naive line/column of a byte offset (C18), with LF, CR and CRLF 
 line break (the convention `src/text/line_break.rs` documents and the validator's `Position` uses:
 line and column 1-based, column counted in bytes).  Import-free.
 -/
-namespace SV.YamlPos
+namespace SV.YamlVPos
 
 /-- Scanner state: line, column, and whether the previous byte was a CR. -/
 abbrev St := Nat × Nat × Bool
@@ -22,4 +22,4 @@ def lineCol (bs : List UInt8) (off : Nat) : Nat × Nat :=
   let s := scan (bs.take off)
   (s.1, s.2.1)
 
-end SV.YamlPos
+end SV.YamlVPos
